@@ -41,6 +41,7 @@ fn main() {
         "C03" => frmon::c03::run(&ctx),
         "C04" => frmon::c04::run(&ctx),
         "C05" => frmon::c05::run(&ctx),
+        "C06" => frmon::c06::run(&ctx),
         "C07" => frmon::c07::run(&ctx),
         "C08" => frmon::c08::run(&ctx),
         "C10" => frmon::c10::run(&ctx),
